@@ -4,14 +4,17 @@ import (
 	sdkmath "cosmossdk.io/math"
 	sdk "github.com/cosmos/cosmos-sdk/types"
 	authtypes "github.com/cosmos/cosmos-sdk/x/auth/types"
-	ctypes "github.com/elys-network/elys/x/commitment/types"
+	ammkeeper "github.com/elys-network/elys/x/amm/keeper"
 	ammtypes "github.com/elys-network/elys/x/amm/types"
+	aptypes "github.com/elys-network/elys/x/assetprofile/types"
+	ctypes "github.com/elys-network/elys/x/commitment/types"
 	vrf "github.com/elys-network/elys/zzvrf"
 	"github.com/elys-network/elys/zzvrf/wire"
 )
 
 // The amm v8 -> v9 store migration (x/amm/migrations.V9Migration -> Keeper.MatchAmmBalances),
 // run on a non-oracle pool whose book and bank holding are arbitrary.
+//
 //vrf:cover book-above-bank book-below-bank book-equals-bank
 //vrf:bound 1 non-oracle pool x 2 assets, book and bank amounts unbounded
 func H_AmmMigration_MatchAmmBalances() {
@@ -55,6 +58,7 @@ func H_AmmMigration_MatchAmmBalances() {
 
 // A claim that releases both the native token and a non-native vesting denom (a second vesting
 // program whose payout the module was pre-funded with): only the native part may be minted.
+//
 //vrf:cover claimed
 //vrf:bound 2 vesting entries (uelys and uusdc vesting denoms), totals, claimed amounts, heights symbolic
 func H_ClaimVesting_MixedDenoms() {
@@ -89,4 +93,48 @@ func H_ClaimVesting_MixedDenoms() {
 	vrf.Cover("claimed")
 	vrf.CheckSupply()
 	vrf.Assert(env.W.SupplyOf("uusdc").Equal(s0), "C15: a vesting claim does not change the supply of a non-native vesting denom")
+}
+
+// Governance changes a pool's parameters (oracle pricing switched on or off included) while the pool account holds more
+// than the recorded reserves (tokens sent straight to the pool address): no asset is minted or burnt to reconcile them.
+//
+//vrf:cover updated
+//vrf:bound 1 pool x 2 assets, UseOracle before / after symbolic, recorded reserves and bank balances symbolic with bank >= book; MsgUpdatePoolParams from the governance authority
+func H_UpdatePoolParams_SupplyUnchanged() {
+	env := wire.New(wire.Opts{})
+	ctx := env.Ctx
+	env.Amm.SetParams(ctx, ammtypes.DefaultParams())
+	env.Aprof.SetEntry(ctx, aptypes.Entry{BaseDenom: "uusdc", Denom: "uusdc", Decimals: 6})
+	poolAddr := ammtypes.NewPoolAddress(1)
+	ba, bu := vrf.Int("bookAtom"), vrf.Int("bookUsdc")
+	da, du := vrf.Int("donatedAtom"), vrf.Int("donatedUsdc")
+	for _, x := range []sdkmath.Int{ba, bu} {
+		vrf.Assume(x.IsPositive())
+	}
+	for _, x := range []sdkmath.Int{da, du} {
+		vrf.Assume(!x.IsNegative())
+	}
+	env.Amm.SetPool(ctx, ammtypes.Pool{
+		PoolId: 1, Address: poolAddr.String(), RebalanceTreasury: ammtypes.NewPoolRebalanceTreasury(1).String(),
+		PoolParams:  ammtypes.PoolParams{UseOracle: vrf.Bool("oracleBefore"), SwapFee: sdkmath.LegacyZeroDec(), FeeDenom: "uusdc"},
+		TotalShares: sdk.Coin{Denom: ammtypes.GetPoolShareDenom(1), Amount: sdkmath.NewInt(1000)},
+		PoolAssets: []ammtypes.PoolAsset{
+			{Token: sdk.Coin{Denom: "uatom", Amount: ba}, Weight: sdkmath.NewInt(1), ExternalLiquidityRatio: sdkmath.LegacyOneDec()},
+			{Token: sdk.Coin{Denom: "uusdc", Amount: bu}, Weight: sdkmath.NewInt(1), ExternalLiquidityRatio: sdkmath.LegacyOneDec()},
+		},
+		TotalWeight: sdkmath.NewInt(2),
+	})
+	env.W.SetBal(poolAddr, "uatom", ba.Add(da))
+	env.W.SetBal(poolAddr, "uusdc", bu.Add(du))
+	env.W.Supply["uatom"] = ba.Add(da)
+	env.W.Supply["uusdc"] = bu.Add(du)
+	srv := ammkeeper.NewMsgServerImpl(*env.Amm)
+	np := ammtypes.PoolParams{UseOracle: vrf.Bool("oracleAfter"), SwapFee: sdkmath.LegacyNewDecWithPrec(1, 2), FeeDenom: "uusdc"}
+	if _, err := srv.UpdatePoolParams(ctx, &ammtypes.MsgUpdatePoolParams{Authority: wire.Gov, PoolId: 1, PoolParams: np}); err != nil {
+		return
+	}
+	vrf.Cover("updated")
+	vrf.CheckSupply()
+	vrf.Assert(env.W.SupplyOf("uusdc").Equal(bu.Add(du)), "C15: the supply of the base stablecoin is unchanged by a governance update of pool parameters")
+	vrf.Assert(env.W.SupplyOf("uatom").Equal(ba.Add(da)), "C15: the supply of a traded asset is unchanged by a governance update of pool parameters")
 }
